@@ -200,6 +200,9 @@ func (c *ContractIterator) Value() []byte {
 // stripDelIterator 从迭代器里剔除删除标注和空版本
 type stripDelIterator struct {
 	ledger.XMIterator
+	// stripEmptyVersion also drops read-set entries recording that a key was
+	// absent (empty version, no value)
+	stripEmptyVersion bool
 }
 
 func newStripDelIterator(xmiter ledger.XMIterator) ledger.XMIterator {
@@ -208,10 +211,22 @@ func newStripDelIterator(xmiter ledger.XMIterator) ledger.XMIterator {
 	}
 }
 
+// newStripDelAndEmptyIterator is for iterators over versioned reads (read set,
+// backend): a key that was read as absent is not a live key of the range
+func newStripDelAndEmptyIterator(xmiter ledger.XMIterator) ledger.XMIterator {
+	return &stripDelIterator{
+		XMIterator:        xmiter,
+		stripEmptyVersion: true,
+	}
+}
+
 func (s *stripDelIterator) Next() bool {
 	for s.XMIterator.Next() {
 		v := s.Value()
 		if IsDelFlag(v.PureData.Value) {
+			continue
+		}
+		if s.stripEmptyVersion && IsEmptyVersionedData(v) && v.PureData.Value == nil {
 			continue
 		}
 		return true
